@@ -409,8 +409,54 @@ TABLE_STATES = [s for s in SWEEP_STATES if s[0] != "recorded"][:8] \
     + [("recorded", [0, 1])]
 
 
+BATCH_STATES = [("long", [0, 2]), ("long", [0]), ("long", [0, 4]),
+                ("long", []), ("short", [0, 2])]
+
+
+def batch_case(case):
+    """the stand-alone rater, given several curves in one call (a map, a
+    rating container), rates each of them as it rates it alone - and as
+    rate_quality does"""
+    from nanite.rate import rater as rmod
+    from nanite.rate.features import IndentationFeatures as IF
+    from .. import state
+    state.restore()
+    out = []
+    reg, ts, names, lda = case["rating"]
+    curves = []
+    for dname, h in BATCH_STATES:
+        idnt, _ = hist.build(DRIVERS[dname], h)
+        curves.append(idnt)
+    if case["order"] == "reversed":
+        curves = curves[::-1]
+    rt = rmod.get_rater(regressor=reg, training_set=ts_arg(ts), names=names,
+                        lda=lda)
+    try:
+        alone = [float(np.atleast_1d(rt.rate(datasets=c))[0])
+                 for c in curves]
+        batch = [float(v) for v in np.atleast_1d(rt.rate(datasets=curves))]
+        rq = [float(c.rate_quality(regressor=reg, training_set=ts_arg(ts),
+                                   names=names, lda=lda)) for c in curves]
+    except BaseException as e:
+        if isinstance(e, (KeyboardInterrupt, SystemExit, MemoryError)):
+            raise
+        out.append(V(PROP, "rate-raises", site="rater-batch",
+                     witness=json.dumps(case["rating"][:2]), detail=repr(e),
+                     case=case, kind="batch"))
+        return out
+    if batch != alone or rq != alone:
+        out.append(V(PROP, "standalone-differs", site="rater-batch",
+                     witness=json.dumps([reg, ts, case["order"]]),
+                     detail=f"curves rated one by one {alone}, in one call "
+                     f"{batch}, by rate_quality {rq}", case=case,
+                     kind="batch"))
+    return out
+
+
 def replay(doc):
     ensure_user_ts()
+    if doc.get("kind") == "batch":
+        return batch_case(doc["case"])
     return hist.replay_case(doc["case"])
 
 
@@ -437,6 +483,17 @@ def run(tier):
         ratings |= info["raw_stats"].get("distinct_ratings", set())
         hs = sorted((h for h, _ in seen.values()), key=len)
         rep.sample({"driver": name, "history": [drv.ops[i] for i in hs[-1]]})
+    # several curves in one call of the stand-alone rater
+    nb = 0
+    for rating in (["Extra Trees", "user", None, None],
+                   ["Decision Tree", "zef18", None, None],
+                   ["SVR (linear kernel)", "user", NAMES_A, None]):
+        for order in ("given", "reversed"):
+            nb += 1
+            rep.extend(batch_case({"kind": "batch", "rating": rating,
+                                   "order": order}))
+    rep.set("batch_rating_cases", nb)
+    rep.add("transitions", nb * len(BATCH_STATES))
     # full sweep of the rating menu over representative states
     menu = sweep_menu(tier)
     jobs = []
